@@ -159,6 +159,8 @@ f_set_bit (void)
   old_len = len = SVALUE_STRLEN (sp);
   if (ind >= (int)len)
     len = ind + 1;
+  if (len > (size_t)CONFIG_INT (__MAX_STRING_LENGTH__))
+    error ("set_bit: result exceeds maximum string length.\n");
   if (ind < (int)old_len)
     {
       unlink_string_svalue (sp);
